@@ -153,7 +153,7 @@ def writer_content_table(F, fn):
             return None
         # a loop written as an iterator adapter: `d.iter().try_for_each(|v| dest.write_i32(*v))` — walk the closure body once
         # as the body of a loop over the receiver's elements
-        if re.search(r"Iterator::(try_for_each|for_each|map|try_fold|fold|all|any|inspect)$", n) and len(args) >= 2:
+        if re.search(r"Iterator>?::(try_for_each|for_each|map|try_fold|fold|all|any|inspect)$", n) and len(args) >= 2:
             cl = [a for a in args[1:] if a and a[0] == "agg" and str(a[1]).startswith("closure:")]
             cf = F.fns.get(str(cl[0][1])[len("closure:"):]) if cl else None
             if cf is not None and cf.body and not in_closure[0]:
